@@ -437,3 +437,78 @@ def gen_partnumbering(repo):
             f"def offsetAssignments : List String := [{', '.join(chr(34) + o + chr(34) for o in offs)}]\n"
             f"def call : String := \"{arg}\"\n"
             "end PqV.Gen.PartNumbering\n")
+
+
+@register("KvMerge")
+def gen_kvmerge(repo):
+    """util.update_custom_metadata: the statements of the merge loop, branch by branch (whitespace-free text)."""
+    src = open(os.path.join(repo, "fastparquet", "util.py")).read()
+    fn = find_func(ast.parse(src), "update_custom_metadata")
+    loops = [n for n in fn.body if isinstance(n, ast.For)]
+    if len(loops) != 1:
+        raise Unsupported("update_custom_metadata: expected one loop over custom_metadata.items()")
+    loop = loops[0]
+    outer = [n for n in loop.body if isinstance(n, ast.If)]
+    if len(outer) != 1:
+        raise Unsupported("update_custom_metadata: expected one if/elif chain in the loop")
+    top = outer[0]
+    u = lambda n: ast.unparse(n).replace(" ", "").replace("\n", ";")   # noqa: E731
+    found_cond = u(top.test)
+    inner = [n for n in top.body if isinstance(n, ast.If)]
+    if len(inner) != 1:
+        raise Unsupported("update_custom_metadata: expected remove/replace branches under the found-branch")
+    remove_cond = u(inner[0].test)
+    remove = [u(x) for x in inner[0].body]
+    replace = [u(x) for x in inner[0].orelse]
+    if len(top.orelse) != 1 or not isinstance(top.orelse[0], ast.If):
+        raise Unsupported("update_custom_metadata: expected an elif branch for new keys")
+    add_cond = u(top.orelse[0].test)
+    add = [u(x) for x in top.orelse[0].body]
+    q = lambda l: "[" + ", ".join(chr(34) + x.replace(chr(34), "'") + chr(34) for x in l) + "]"   # noqa: E731
+    return ("-- REGENERATED on every run by tools/translate_callsites.py from fastparquet/util.py — do not edit\n"
+            "namespace PqV.Gen.KvMerge\n"
+            f"def foundCond : String := \"{found_cond}\"\n"
+            f"def removeCond : String := \"{remove_cond}\"\n"
+            f"def removeStmts : List String := {q(remove)}\n"
+            f"def replaceStmts : List String := {q(replace)}\n"
+            f"def addCond : String := \"{add_cond}\"\n"
+            f"def addStmts : List String := {q(add)}\n"
+            "end PqV.Gen.KvMerge\n")
+
+
+@register("HandleState")
+def gen_handlestate(repo):
+    """api.ParquetFile: the state a derived handle (`__getitem__`) and a pickled / copied handle (`__getstate__`)
+    carry over from the handle they come from, as `key=expression` strings."""
+    src = open(os.path.join(repo, "fastparquet", "api.py")).read()
+    tree = ast.parse(src)
+    cls = [n for n in tree.body if isinstance(n, ast.ClassDef) and n.name == "ParquetFile"][0]
+
+    def method(name):
+        ms = [n for n in cls.body if isinstance(n, ast.FunctionDef) and n.name == name]
+        if len(ms) != 1:
+            raise Unsupported(f"ParquetFile.{name} not found")
+        return ms[0]
+
+    def dict_items(d):
+        if not isinstance(d, ast.Dict) or not all(isinstance(k, ast.Constant) for k in d.keys):
+            raise Unsupported("state is not a dict literal with constant keys")
+        return [f"{k.value}={ast.unparse(v).replace(' ', '')}" for k, v in zip(d.keys, d.values)]
+    gs = method("__getstate__")
+    rets = [n.value for n in ast.walk(gs) if isinstance(n, ast.Return)]
+    if len(rets) != 1:
+        raise Unsupported("__getstate__: expected one return")
+    pick = dict_items(rets[0])
+    gi = method("__getitem__")
+    calls = [n for n in ast.walk(gi) if isinstance(n, ast.Call) and ast.unparse(n.func).endswith(".__setstate__")]
+    if len(calls) != 1 or len(calls[0].args) != 1:
+        raise Unsupported("__getitem__: expected one __setstate__ call with a dict")
+    derived = dict_items(calls[0].args[0])
+    q = lambda l: "[" + ", ".join(chr(34) + x.replace(chr(34), "'") + chr(34) for x in l) + "]"   # noqa: E731
+    return ("-- REGENERATED on every run by tools/translate_callsites.py from fastparquet/api.py — do not edit\n"
+            "namespace PqV.Gen.HandleState\n"
+            f"/-- `ParquetFile.__getstate__` (line {gs.lineno}) -/\n"
+            f"def pickled : List String := {q(pick)}\n"
+            f"/-- the state `ParquetFile.__getitem__` (line {gi.lineno}) hands to the derived handle -/\n"
+            f"def derived : List String := {q(derived)}\n"
+            "end PqV.Gen.HandleState\n")
